@@ -50,6 +50,10 @@ char *v_strpbrk(const char *, const char *);
 char *v_strsep(char **, const char *);
 char *v_strndup(const char *, size_t);
 long v_atol(const char *);
+long v_strtol(const char *, char **, int);
+long long v_strtoll(const char *, char **, int);
+unsigned long v_strtoul(const char *, char **, int);
+unsigned long long v_strtoull(const char *, char **, int);
 int v_atoi(const char *);
 long long v_atoll(const char *);
 int v_vsnprintf(char *, size_t, const char *, va_list);
@@ -66,6 +70,10 @@ int v_sscanf(const char *, const char *, ...);
 #define strsep(...)     v_strsep(__VA_ARGS__)
 #define strndup(...)    v_strndup(__VA_ARGS__)
 #define atol(...)       v_atol(__VA_ARGS__)
+#define strtol(...)     v_strtol(__VA_ARGS__)
+#define strtoll(...)    v_strtoll(__VA_ARGS__)
+#define strtoul(...)    v_strtoul(__VA_ARGS__)
+#define strtoull(...)   v_strtoull(__VA_ARGS__)
 #define atoi(...)       v_atoi(__VA_ARGS__)
 #define atoll(...)      v_atoll(__VA_ARGS__)
 #define vsnprintf(...)  v_vsnprintf(__VA_ARGS__)
